@@ -27,6 +27,7 @@ func init() {
 		Rules: []RuleFn{
 			{Name: "C13.R1", Run: func(c *Ctx) { ruleAdjustPure(c, "C13.R1") }},
 			{Name: "C13.R2", Run: func(c *Ctx) { ruleRelocationComplete(c, "C13.R2") }},
+			{Name: "C13.R7", Run: func(c *Ctx) { ruleRelocationScope(c, "C13.R7") }},
 			{Name: "C13.R3", Run: func(c *Ctx) { ruleProgramReadOnly(c, "C13.R3") }},
 			{Name: "C13.R4", Run: func(c *Ctx) { ruleCommandScope(c, "C13.R4") }},
 			{Name: "C13.R6", Run: func(c *Ctx) { ruleAttemptFresh(c, "C13.R6") }},
@@ -52,6 +53,7 @@ func init() {
 				}, 2)
 			}},
 			{Name: "C01.R2", Run: func(c *Ctx) { ruleRelocationComplete(c, "C01.R2") }},
+			{Name: "C01.R4", Run: func(c *Ctx) { ruleRelocationScope(c, "C01.R4") }},
 			{Name: "C01.R3", Run: func(c *Ctx) { ruleScanDiscipline(c, "C01.R3"); ruleAttemptFresh(c, "C01.R3b") }},
 		},
 	})
@@ -118,8 +120,8 @@ func init() {
 			{Name: "C08.R1", Run: func(c *Ctx) { ruleEOFWorld(c, "C08.R1") }},
 			{Name: "C08.R2", Run: func(c *Ctx) {
 				rulePanicInventory(c, "C08.R2", c.compileRoots(), []string{"ast", "bytecode", "libvore", "ds"}, map[string]string{
-					"(*ast.Lexer).unread": "guards the position stack; reached only with amount=1 after at least one rune was read in the current token (value-level invariant of the state machine)",
-					"ast.HexToAscii":      "ParseInt on two runes that the only call sites have just tested with IsHex",
+					"msg:\"You can't pop that much!!!\"": "guards the position stack; reached only with amount=1 after at least one rune was read in the current token (value-level invariant of the state machine)",
+					"msg:\"COULDN'T CONVERT\"":           "ParseInt on two runes that the only call sites have just tested with IsHex",
 				}, 4)
 			}},
 			{Name: "C08.R3", Run: func(c *Ctx) {
@@ -160,48 +162,42 @@ func init() {
 		Assumptions: commonAssumptions,
 		Rules: []RuleFn{
 			{Name: "C09.R1", Run: func(c *Ctx) {
-				special := map[string]func() (bool, string){
-					"engine.executeBinaryExpr": func() (bool, string) {
-						t := c.extractCheckerTables()
-						if t.err != "" {
-							return false, "cannot extract the checker table: " + t.err
+				evalDischarge := func() (bool, string) {
+					t := c.extractCheckerTables()
+					if t.err != "" {
+						return false, "cannot extract the checker table: " + t.err
+					}
+					for _, k := range sortedKeys(t.binary) {
+						if t.binary[k] == "PTERROR" {
+							continue
 						}
-						for _, k := range sortedKeys(t.binary) {
-							if t.binary[k] == "PTERROR" {
-								continue
-							}
-							p := strings.Split(k, "|")
-							if p[0] == "PTERROR" || p[2] == "PTERROR" {
-								continue
-							}
-							if cell := c.evalBinaryCell(p[1], p[0], p[2]); cell.Panic || cell.Err != "" {
-								return false, "reachable for the accepted combination " + k
-							}
+						p := strings.Split(k, "|")
+						if p[0] == "PTERROR" || p[2] == "PTERROR" {
+							continue
 						}
-						return true, "unreachable for every operand-type combination the checker accepts (C09.R2), provided variables keep their checked type (C09.R3)"
-					},
+						if cell := c.evalBinaryCell(p[1], p[0], p[2]); cell.Panic || cell.Err != "" {
+							return false, "reachable for the accepted combination " + k
+						}
+					}
+					return true, "unreachable for every operand-type combination the checker accepts (C09.R2), provided variables keep their checked type (C09.R3)"
+				}
+				// the evaluator's dispatch and every helper that is reachable only through it
+				special := map[string]func() (bool, string){}
+				if ebe := c.Fn("engine", "executeBinaryExpr"); ebe != nil {
+					special[fnName(ebe)] = evalDischarge
+					for f := range c.Reachable(ebe) {
+						if c.isRepoFn(f) && f.Pkg == ebe.Pkg && f != ebe && f.Name() != "executeExpression" && c.onlyThrough(c.runRoots(), ebe, f) {
+							special[fnName(f)] = evalDischarge
+						}
+					}
 				}
 				rulePanicInventory(c, "C09.R1", c.runRoots(), []string{"engine", "files", "ds"}, map[string]string{
-					"(*engine.SearchEngineState).INCLOOPSTACK":       "loop stack non-empty: follows from well-bracketed StartLoop/StopLoop bytecode (value-level VM invariant)",
-					"(*engine.SearchEngineState).GETITERATIONSTEP":   "loop stack non-empty (VM invariant)",
-					"(*engine.SearchEngineState).CHECKZEROMATCHLOOP": "loop stack non-empty (VM invariant)",
-					"(*engine.SearchEngineState).POPLOOPSTACK":       "loop stack non-empty (VM invariant)",
-					"(*engine.SearchEngineState).ENDVAR":             "variable records are pushed and popped by bracketed StartVarDec/EndVarDec instructions (VM invariant)",
-					"(*engine.SearchEngineState).RETURN":             "call stack non-empty inside a subroutine (VM invariant)",
-					"engine.findMatches":                             "the byte at fileOffset exists because the loop leaves when fileOffset >= reader.Size() (value-level)",
-					"engine.matchEndSubroutine":                      "call stack non-empty inside a subroutine (VM invariant)",
-					"(ds.Optional[string]).GetValue[string]":         "callers test HasValue() first (C17.R2)",
-					"files.ReaderFromFileToMemory":                   "operating-system failure (outside the property's quantifier: programs x contents)",
-					"files.ReaderFromFile":                           "operating-system failure",
-					"(*files.Reader).Seek":                           "operating-system failure / negative offset never requested",
-					"(*files.Reader).Close":                          "operating-system failure",
-					"files.WriterFromFile":                           "operating-system failure",
-					"(*files.Writer).WriteAt":                        "operating-system failure",
-					"(*files.Writer).Close":                          "operating-system failure",
-					"engine.RunFiles":                                "operating-system failure (os.Stat / os.ReadDir on a listed file)",
-					"files.NewBufferedFile":                          "operating-system failure; end of input is handled by C09.R6",
-					"(*files.Reader).Read":                           "read failure other than end of input; end of input is C09.R6",
-					"(*files.Reader).ReadAt":                         "read failure other than end of input; end of input is C09.R6",
+					"msg:\"oh crap :(\"":             "loop stack non-empty: follows from well-bracketed StartLoop/StopLoop bytecode (value-level VM invariant)",
+					"msg:\"Loop stack is empty :(\"": "loop stack non-empty (VM invariant)",
+					"msg:\"UHOH BAD INSTRUCTIONS I TRIED RESOLVING A VARIABLE THAT I WASN'T EXPECTING\"": "variable records are pushed and popped by bracketed StartVarDec/EndVarDec instructions (VM invariant)",
+					"msg:\"BAD CALL STACK :(\"":                               "call stack non-empty inside a subroutine (VM invariant)",
+					"msg:\"WOW THAT IS NOT GOOD :(\"":                         "the byte at the scan offset exists because the scan loop leaves when the offset reaches reader.Size() (value-level)",
+					"msg:\"Attempting to read value from empty optional :(\"": "callers test HasValue() first (C17.R2)",
 				}, 20, special)
 			}},
 			{Name: "C09.R2", Run: func(c *Ctx) { ruleCheckerSubsetEvaluator(c, "C09.R2", nil) }},
@@ -212,13 +208,12 @@ func init() {
 			{Name: "C09.R7", Run: func(c *Ctx) { ruleTypeAssertions(c, "C09.R7", []string{"engine", "files"}, 1) }},
 			{Name: "C09.R8", Run: func(c *Ctx) {
 				ruleStackAPI(c, "C09.R8", map[string]string{
-					"(*engine.SearchEngineState).ENDVAR":         "variable records are pushed and popped by bracketed StartVarDec/EndVarDec instructions (VM invariant)",
-					"engine.matchEndSubroutine":                  "call stack non-empty inside a subroutine (VM invariant)",
-					"(*engine.SearchEngineState).INSERTVARIABLE": "the index runs from Size()-1 down to 0 (loop bounds), so Index never returns nil",
-					"(*ast.Lexer).get_position":                  "the position stack is created with one element and unread never pops the last one",
-					"(*ast.Lexer).read":                          "the position stack is never empty (see get_position)",
-					"(*ast.Lexer).getNextToken":                  "the position stack is never empty (see get_position)",
-					"(*ast.Lexer).unread":                        "guarded by `amount >= s.position.Size()`",
+					"(*engine.SearchEngineState).ENDVAR": "variable records are pushed and popped by bracketed StartVarDec/EndVarDec instructions (VM invariant)",
+					"engine.matchEndSubroutine":          "call stack non-empty inside a subroutine (VM invariant)",
+					"(*ast.Lexer).get_position":          "the position stack is created with one element and unread never pops the last one",
+					"(*ast.Lexer).read":                  "the position stack is never empty (see get_position)",
+					"(*ast.Lexer).getNextToken":          "the position stack is never empty (see get_position)",
+					"(*ast.Lexer).unread":                "guarded by `amount >= s.position.Size()`",
 				})
 			}},
 			{Name: "C09.R9", Run: func(c *Ctx) { ruleReaderLifetime(c, "C09.R9") }},
